@@ -46,8 +46,9 @@
   xsdobject.MapDuration/DateTime/Date/Time/GYearMonth/   parameter `Env.timeMaps`, tried in order
     GYear
   Decoder.xmlRender (x/net/html renderer + regexp)       parameter `Env.xmlRender` (node identity ↦ string | error)
-  Decoder.htmlRender                                     unreachable in walkNode (the branch for rdf:HTML is shadowed
-                                                          by the earlier `datatypeIRI != rdf:XMLLiteral` branch)
+  Decoder.htmlRender (x/net/html renderer)               parameter `Env.htmlRender` (node identity ↦ string | error); the
+                                                          model follows the code AFTER patch c11ra-1-fix-rdf-html-literal
+                                                          (before it the rdf:HTML branch was shadowed and unreachable)
   text offsets, container resources                      outside the model (they do not influence the triples)
 
   Outcomes where Go would crash or emit a nil term are explicit:
@@ -55,7 +56,7 @@
                   object), a nil term reaching the property-copying dataset;
     `Bad.nilTerm` a statement or list item with a nil subject / object would be appended (the model stops recording
                   there; Props/C11Ra proves it never happens);
-    `Bad.err`     walkNode returned an error (xml render): Next returns false with Err set and NO statement is yielded.
+    `Bad.err`     walkNode returned an error (xml / html render): Next returns false with Err set and NO statement is yielded.
 
   `St.asks` is a ghost log of the oracle calls that depend on run-time bases (used by the driver to detect a missing
   table entry); nothing reads it.
@@ -75,6 +76,7 @@ def rdfFirst : Bytes := asc "http://www.w3.org/1999/02/22-rdf-syntax-ns#first"
 def rdfRest : Bytes := asc "http://www.w3.org/1999/02/22-rdf-syntax-ns#rest"
 def rdfNil : Bytes := asc "http://www.w3.org/1999/02/22-rdf-syntax-ns#nil"
 def rdfXMLLiteral : Bytes := asc "http://www.w3.org/1999/02/22-rdf-syntax-ns#XMLLiteral"
+def rdfHTML : Bytes := asc "http://www.w3.org/1999/02/22-rdf-syntax-ns#HTML"
 def usesVocabulary : Bytes := asc "http://www.w3.org/ns/rdfa#usesVocabulary"
 def rdfaCopy : Bytes := asc "http://www.w3.org/ns/rdfa#copy"
 def rdfaPattern : Bytes := asc "http://www.w3.org/ns/rdfa#Pattern"
@@ -197,6 +199,8 @@ structure Env where
   timeMaps : List (Bytes → Option (Bytes × Bytes))
   /-- Decoder.xmlRender of the node with this identity; `none` = error -/
   xmlRender : Nat → Option Bytes
+  /-- Decoder.htmlRender of the node with this identity; `none` = error -/
+  htmlRender : Nat → Option Bytes
 
 structure Cfg where
   /-- DecoderConfig.htmlProcessingProfile (0 = unset) -/
@@ -756,13 +760,17 @@ def propertyValue (E : Env) (active : Bool) (n : Node) (a : A) (l : L) (st : St)
     if active && n.atom = asc "time" && a.content.isNone then
       let v := match a.datetime with | some d => d | none => textContent n
       (some (some (if !dt.isEmpty then .lit v dt none else firstMap v E.timeMaps)), st)
-    else if a.datatype.isSome && !dt.isEmpty && dt ≠ rdfXMLLiteral then
+    else if a.datatype.isSome && !dt.isEmpty && dt ≠ rdfXMLLiteral && dt ≠ rdfHTML then
       (some (some (.lit (match a.content with | some c => c | none => textContent n) dt none)), st)
     else if a.datatype.isSome && dt.isEmpty then
       (some (some (.lit (match a.content with | some c => c | none => textContent n) xsdString none)), st)
     else if a.datatype.isSome && dt = rdfXMLLiteral then
       match E.xmlRender n.id with
       | some s => (some (some (.lit s rdfXMLLiteral none)), st)
+      | none => (none, st)
+    else if a.datatype.isSome && dt = rdfHTML then
+      match E.htmlRender n.id with
+      | some s => (some (some (.lit s rdfHTML none)), st)
       | none => (none, st)
     else
       match a.content with
